@@ -45,6 +45,7 @@ func runAUG(c *Ctx) (obls []Obl) {
 	augTypeStr(c, a)
 	augLoad(c, a)
 	augParams(c, a)
+	augFuncASTOrder(c, a)
 	fn := c.MustFunc(&obls, "AUG-words", "stack", "", "augmentCall")
 	if fn == nil {
 		return
@@ -615,6 +616,25 @@ func augName(c *Ctx, a *flAgg) {
 			if !lt.Pol && at.Op == OpBin && at.Tok == token.EQL && len(at.Args) == 2 && at.Args[1].isNilConst() && strings.Contains(at.Args[0].String(), "getFuncAST(") && strings.HasSuffix(at.Args[0].String(), "#0") {
 				declNonNil = true
 			}
+		}
+		// ... and the parsed file it is looked up in exists: a file that could
+		// not be loaded is remembered as a nil entry
+		fileNonNil := false
+		for _, ev := range p.Events {
+			if ev.Kind == EvCall && ev.Val.Op == OpCall && ev.Val.Fn != nil && ev.Val.Fn.Name() == "getFuncAST" && len(ev.Val.Args) > 1 {
+				recv := ev.Val.Args[1].String()
+				if isNil, have := p.lit("(" + recv + " == nil)"); have && !isNil {
+					fileNonNil = true
+				}
+				if strings.HasPrefix(recv, "&") {
+					fileNonNil = true // address of a local
+				}
+			}
+		}
+		if !fileNonNil {
+			a.bad("AUG-name", "augmentGoroutine/file-non-nil", "getFuncAST is called on a parsed file that was not tested to exist: a file that failed to load is remembered as a nil entry, and the second frame in it dereferences nil", pos)
+		} else {
+			a.ok("AUG-name", "augmentGoroutine/file-non-nil", "the declaration is looked up only in a file that was loaded", pos)
 		}
 		if !declNonNil {
 			a.bad("AUG-name", "augmentGoroutine/decl-non-nil", "the declaration returned by getFuncAST is used (its name read, the frame augmented) without testing that there is one: getFuncAST returns (nil, nil) for a line behind the last syntax node, and the dereference panics", pos)
